@@ -77,7 +77,10 @@ def main():
         for theme in ("time-edge", "time-far"):
             now = 0.25 if theme == "time-edge" else 0.0        # stamps are later than the theme's instants only for time-edge
             for i in range(n_rand // 2):
+                import themes
+                far_pool = [i for i, t in enumerate(themes.get("time-far").times) if t.year < 1901 or t.year > 1930]   # range start, 2038 / 2106 boundaries, the end of 2239 at microsecond steps
                 g = gen.Gen(rng.randrange(1 << 30), nt=24 if theme == "time-edge" else 70, now=now, handles=0.1,
+                            time_pool=None if theme == "time-edge" else far_pool,
                             focus={"insert": 7, "insert_multiple": 3, "update": 4, "update_all": 1, "remove": 2, "reopen": 1,
                                    "reads": ["search", "search", "count", "get", "select", "get_timestamps", "get_timestamps", "all", "contains"]})
                 kind, ai = traces.CONFIGS[i % 4]
@@ -85,7 +88,7 @@ def main():
                 for a in ops:                                       # bias queries towards time comparisons
                     if "q" in a and g.r.random() < 0.6:
                         a["q"] = {"k": "time", "key": 0, "key2": 0, "mf": 0, "op": g.r.choice(["eq", "ne", "lt", "le", "gt", "ge"]),
-                                  "v": g.r.randrange(g.nt), "tf": 0}
+                                  "v": g.rt(), "tf": 0}
                         a.pop("adapt", None)
                 jobs.append(("%s-%s-r%d" % (tz, theme, i), kind, ai, ops, bat, core.NTK, core.NFK, {"theme": theme}))
         for i, ops in enumerate(paths[zi::len(ZONES)]):
